@@ -248,6 +248,10 @@ class ExprMixin:
             return k(z3.BoolVal(True), st) if self.find_repo_method(cn, "__bool__") is None else \
                 self.call_method(v, "__bool__", [], {}, st, lambda r, s: self.bool_of(r, s, k))
         m = self.find_repo_method(cn, "__bool__")
+        if m is not None and self.is_abstract_method(m):
+            # abstract truth value: a volatile ghost (pure function of the heap within one atomic segment)
+            arr = st.harr(self.ABSTRACT_TRUTH, z3.ArraySort(RefS, z3.BoolSort()))
+            return k(z3.Select(arr, v.t), st)
         if m is None:
             lm = self.find_repo_method(cn, "__len__")
             if lm is not None:
@@ -260,6 +264,12 @@ class ExprMixin:
         return self.split(st, v.t == NULL,
                           lambda s: k(z3.BoolVal(False), s),
                           lambda s: self.call_method(v, "__bool__", [], {}, s, after))
+
+    ABSTRACT_TRUTH = "Condition.$truth"
+
+    def is_abstract_method(self, m):
+        body = [x for x in m.node.body if not (isinstance(x, ast.Expr) and isinstance(x.value, ast.Constant))]
+        return len(body) == 1 and isinstance(body[0], ast.Raise) and "NotImplementedError" in ast.unparse(body[0])
 
     def find_repo_method(self, clsname, name):
         ci = self.class_info(clsname)
